@@ -13,9 +13,22 @@ func init() {
 	register("C16", "exploration", runC16)
 }
 
+// c16Last remembers the arguments of the accessor call in progress (for the panic report).
+var c16Last [3]uint8
+
 // C16 — flag and register accessors.  Complete enumeration through the
 // exported API.
 func runC16(c *Ctx) {
+	// an accessor that panics for some mask / value is a violation, not a crash of the monitor
+	defer func() {
+		if p := recover(); p != nil {
+			c.R.Violation("C16/panic", map[string]interface{}{"what": fmt.Sprintf("an accessor panicked: %v", p),
+				"last_call": fmt.Sprintf("mask=%02X F=%02X A=%02X", c16Last[0], c16Last[1], c16Last[2])})
+			c.R.Set("evaluations", int64(1))
+			c.R.Set("distinct_nontrivial", int64(1))
+			c.R.Set("rule", "the sweep was cut short by a panicking accessor")
+		}
+	}()
 	var evals int64
 	// constants
 	consts := []struct {
@@ -43,6 +56,7 @@ func runC16(c *Ctx) {
 			for a := 0; a < 256; a++ {
 				g := base
 				g.AF = z80.Register{Hi: uint8(a), Lo: uint8(f)}
+				c16Last = [3]uint8{uint8(mask), uint8(f), uint8(a)}
 				before := g
 				// GetFlag: any named bit set; must not modify
 				got := g.GetFlag(z80.Flag(mask))
